@@ -19,7 +19,7 @@ use std::sync::mpsc::{channel, Receiver, Sender};
 use std::sync::{Mutex, OnceLock};
 
 /// which properties a target can decide
-pub const TARGETS: &[(&str, &[&str])] = &[("fz_add", &["C06", "C12"]), ("fz_expr", &["C02", "C09", "C12"]), ("fz_prog", &["C03", "C09"]), ("fz_ws", &["C08"])];
+pub const TARGETS: &[(&str, &[&str])] = &[("fz_add", &["C06", "C12"]), ("fz_expr", &["C02", "C09", "C12"]), ("fz_prog", &["C03", "C09"]), ("fz_ws", &["C08"]), ("fz_hostile", &["C07"])];
 
 /// executions per job (16 jobs) and maximal input length of a campaign
 pub fn budget(target: &str, prop: &str) -> (u64, usize) {
@@ -30,6 +30,7 @@ pub fn budget(target: &str, prop: &str) -> (u64, usize) {
         ("fz_expr", _) => (300_000, 4096),
         ("fz_prog", _) => (120_000, 8192),
         ("fz_ws", _) => (600_000, 4096),
+        ("fz_hostile", _) => (300_000, 4096),
         _ => (100_000, 4096),
     };
     ((runs * scale / 100).max(1000), len)
@@ -62,6 +63,7 @@ type ProgCase = (Vec<crate::stmt::S>, Vec<crate::stmt::S>, Vec<crate::stmt::S>, 
 thread_local! {
     static EXPR: BoxedStrategy<ExprCase> = (crate::exprgen::expr_strategy(4, crate::exprgen::GenOpts::default()), crate::exprgen::ctx_strategy(), crate::exprgen::ctx_strategy(), any::<u64>(), any::<u64>()).boxed();
     static PROG: BoxedStrategy<ProgCase> = c03::program_strategy(3).boxed();
+    static HOSTILE: BoxedStrategy<(E, Ctx, u64)> = (c07::hexpr(), c07::hostile_ctx(c07::HVARS), any::<u64>()).boxed();
     static WS: BoxedStrategy<(Vec<c08::Seg>, c08::Delims)> = prop_oneof![3 => Just(c08::Delims::default()), 1 => c08::delims_strategy()].prop_flat_map(|d| (c08::segs_strategy(d.clone()), Just(d))).boxed();
 }
 
@@ -101,6 +103,14 @@ pub fn run_bytes(target: &str, prop: &str, data: &[u8], l: &mut Local) -> Check 
                 }
                 _ => Ok(()),
             }
+        }
+        ("fz_hostile", "C07") => {
+            let Some((e, ctx, salt)) = HOSTILE.with(|s| from_bytes(s, data)) else { return Ok(()) };
+            // programs that are legitimately huge for the reference evaluator are not run
+            if matches!(eval_b(&e, &ctx, &Budget::new(100_000)), Err(MErr(m)) if m == BUDGET) {
+                return Ok(());
+            }
+            c07::check_hostile_expr(&e, &ctx, salt, l)
         }
         ("fz_ws", "C08") => {
             let Some((segs, d)) = WS.with(|s| from_bytes(s, data)) else { return Ok(()) };
